@@ -2,7 +2,7 @@
     repetitions asked for, needs at least two earlier plies per repetition, and is bounded by the
     half-move clock in histories made by moves only. *)
 From Coq Require Import NArith ZArith List Bool Lia.
-From FG Require Import Geom Rules FenSpec PosImpl PosTabs PosProofsJ.
+From FG Require Import Geom Rules FenSpec PosImpl PosTabs PosProofsJ PosProofs.
 Import ListNotations.
 
 Lemma matches_le_length key v : (matches key v <= Z.of_nat (length v))%Z.
@@ -61,6 +61,35 @@ Proof.
   unfold scanned in *.
   assert (n <= i_hmc p / 2 + 1)%Z as H3 by lia.
   pose proof (Z.mul_div_le (i_hmc p) 2 ltac:(lia)). lia.
+Qed.
+
+(* non-vacuity: the hypotheses of [repetition_clock_bound] hold on a real game (Nf3 Nf6 Ng1 Ng8 played
+   twice from the start position: two earlier occurrences, clock 8, move-only history) *)
+Fixpoint chainb (c : Z) (l : list hstate) : bool :=
+  match l with [] => true
+  | h :: r => (0 <=? h_hmc h)%Z && ((c =? h_hmc h + 1)%Z || (c =? 0)%Z) && chainb (h_hmc h) r end.
+Lemma chainb_chain : forall l c, chainb c l = true -> chain c l.
+Proof.
+  induction l as [|h r IH]; intros c H; cbn [chainb chain] in *; [exact I|].
+  apply andb_prop in H. destruct H as [H H3]. apply andb_prop in H. destruct H as [H1 H2].
+  apply Z.leb_le in H1. apply orb_prop in H2. split; [exact H1|]. split; [|apply IH; exact H3].
+  destruct H2 as [H2|H2]; apply Z.eqb_eq in H2; [left|right]; exact H2.
+Qed.
+Definition shuffle8 : list op :=
+  let g := [ODo (21 + 64 * 6); ODo (45 + 64 * 62); ODo (6 + 64 * 21); ODo (62 + 64 * 45)] in g ++ g.
+Example repetition_clock_bound_applies :
+  exists p, after_ops start_pos shuffle8 = Some p /\
+    (0 <= i_hmc p)%Z /\ chain (i_hmc p) (i_hist p) /\
+    check_repetitions p 2 = true /\ check_repetitions p 3 = false /\ i_hmc p = 8%Z.
+Proof.
+  destruct (after_ops start_pos shuffle8) as [p|] eqn:E; [|vm_compute in E; discriminate].
+  exists p. split; [reflexivity|].
+  assert (((0 <=? i_hmc p)%Z && chainb (i_hmc p) (i_hist p) && check_repetitions p 2 &&
+           negb (check_repetitions p 3) && (i_hmc p =? 8)%Z) = true) as H.
+  { revert E. vm_compute. intro E. injection E as <-. vm_compute. reflexivity. }
+  repeat (apply andb_prop in H; destruct H as [H ?]).
+  repeat split; try (apply Z.leb_le; assumption); try (apply chainb_chain; assumption);
+    try assumption; try (apply negb_true_iff; assumption); apply Z.eqb_eq; assumption.
 Qed.
 
 Print Assumptions repetition_monotone.
